@@ -77,10 +77,26 @@ CFG = {
     "n": {"quick": 400, "thorough": 6000},
     "exhaustive": {"quick": True, "thorough": True},
     "shrink": False,
-    "rule": "corpus (101 hand-built catalogs: every DESIGN section-4 input #21-#24, the crate's own test shapes, dates with Unicode "
+    "rule": "corpus (131 hand-built catalogs: every DESIGN section-4 input #21-#24, the crate's own test shapes, dates with Unicode "
             "digits / invalid UTF-8 / trailing apostrophe, reference chains, a self reference, a cyclic page tree, a directly given "
             "root; entry_tables.case: 77 one-page / one-template documents with one entry of the page, template, resources, "
-            "name-dictionary or catalog type well- or ill-typed, expectation written by hand from the Rust constructors); "
+            "name-dictionary or catalog type well- or ill-typed, expectation written by hand from the Rust constructors; "
+            "by_reference.case: 30 one-page documents with ONE entry given BY INDIRECT REFERENCE (one or two hops) to a value that "
+            "violates / satisfies the entry's refinement predicate or type: /PageMode /PageLayout /Tabs -> unlisted | listed name, "
+            "/PageLabels -> malformed | well-formed number tree, /Type of catalog, root and kid -> other | right name, /LastModified "
+            "-> non-date | date, /Names and a name tree of /Names by reference, /MediaBox /Count /Version -> wrong | right type); "
+            "BY-REFERENCE FAMILY (both tiers): every valid wrong-type / unlisted-name mutation ALSO with the offending value moved "
+            "into a NEW indirect object - the entry becomes `n 0 R` (xr1/mr1) or `n 0 R` -> `n+1 0 R` -> value (xr2/mr2) - wherever "
+            "the regenerated shipped specification declares the entry with IndirectSpec Allowed on every occurrence of the type "
+            "(indAllowed, read off Gen/CatalogSpec.lean; the structural entries /Pages /Kids /Parent /Outlines /Metadata /Dests have "
+            "no by-reference form), expected rejected (a reference denotes its target); exhaustively on the fixed documents (quick: "
+            "one hop on the one-page document and on the document with every entry, two hops on the latter, ~4640 cases; thorough: "
+            "all five documents x both depths, ~14200) and at random (n documents per depth, one random valid mutation by "
+            "reference each); accepted twins: each PRESENT value-typed entry of the fixed documents (xa1/xa2, ~200 cases) and one "
+            "random entry of n/2 random documents per depth (vr1/vr2) moved behind one / two references, expected accepted; the "
+            "by-reference expectations are cross-checked against the declarative reading of the regenerated specification "
+            "(Spec.conf; a disagreement is reported as spec-gap-<class>-by-ref<hops>), the theorems mutated_rejected / "
+            "rendered_conforms cover the in-place forms only; "
             "EXHAUSTIVE both tiers: 5 fixed documents (empty tree, one page, EVERY entry of the shipped catalog / page / template "
             "types incl. the ten name trees and the eight /Resources entries on catalog, page and template, a 3-level tree, empty "
             "inner nodes) x EVERY valid single-rule mutation at EVERY position (drop each required key; add the forbidden /Parent "
@@ -89,13 +105,13 @@ CFG = {
             "replacement value of every other object type (12 basic values) + the near misses of the key's kind: rectangles of "
             "3/5 elements or a non-number, 12 ill-formed dates, 21 number-tree nodes, 17 node shapes below each of the 10 name "
             "trees, 34 /Resources dictionaries with one ill-typed sub-entry, /Contents and /AF arrays with one element of the "
-            "wrong type; every kid embedded directly; /Parent as 6 direct objects), ~7300 cases; random: n conforming documents "
+            "wrong type; every kid embedded directly; /Parent as 6 direct objects), ~7300 cases; random in place: n conforming documents "
             "(depth <= 2 quick / 3 thorough, fan-out <= 3 / 4, each optional entry of every type present at random: rectangles, "
             "dates of every length, names, numbers, number and name trees of all four shapes, arbitrary arrays, dictionaries and "
             "direct streams, arrays of dictionaries, /Contents as a stream or an array of streams, /Resources, indirect "
             "dictionary/stream targets) + 2n documents with one random valid mutation at a random position; every case is "
             "re-derived from (seed, stream, index) by the judge and must equal its rendering; non-trivial = mutated, or "
-            "conforming with a kid and at least one optional entry",
+            "conforming with a kid and at least one optional entry, or with an entry moved behind references",
     "trusted_base": COMMON_TB + [
         "extraction harness/src/bin/c10.rs: serialisation of the real check graph (type constructors, entries, sizes, alternatives, "
         "indirect flags, ChoicePred values, predicate objects numbered by address) into Gen/CatalogSpec.lean; the predicate's Rust "
@@ -108,6 +124,11 @@ CFG = {
         "verif hooks C08-00 and C10-00 (Predicate::verif_name/verif_choices, TypeCheckContext::verif_entries)",
     ],
     "assumptions": [
+        "by-reference family (Driver/C10.lean moveBehind / mutValid / twinValid): the offending (or well-typed) VALUE is the one of a "
+        "valid in-place mutation (resp. of the rendered entry), stored in a new object whose number exceeds every number defined or "
+        "mentioned in the document; expectation = the in-place expectation, justified by `a reference denotes its target` and "
+        "IndirectSpec Allowed of the shipped entry, and decided per case by Spec.conf on the regenerated specification (oracle) - "
+        "not by a theorem: mutated_rejected assumes a graph of dictionaries and streams (DS)",
         "single-rule mutations insert DIRECT values (the replacement value is not a reference, and -- `refEntry` in Mutation.valid -- "
         "a replacement name dictionary does not give one of its name trees by reference, a replacement /Resources none of its "
         "sub-entries, a replacement /AF or /Contents array none of its elements; references inside tree nodes are what the "
